@@ -63,6 +63,13 @@ def lookup (b : Bucket) (key now : Nat) : List Nat :=
     if expired now e.lastActive then [] else (sortByAge (candidates now e.users [])).map (·.1)
   | _ => []
 
+/-- `lookup` before the ages are dropped: (user id, age of that user's freshest live slot) -/
+def lookupAged (b : Bucket) (key now : Nat) : List (Nat × Nat) :=
+  match b.find? (isKey key) with
+  | some (some e) =>
+    if expired now e.lastActive then [] else sortByAge (candidates now e.users [])
+  | _ => []
+
 /-! ## record -/
 
 /-- index of the first element satisfying `p` -/
